@@ -39,4 +39,14 @@ Definition dfa_add_state (cur size : N) : N * N * N :=
   let cur' := cur + 1 in
   (cur, cur', if dfa_full cur' size then size * dfaGrowNum / dfaGrowDen else size).
 
+(** IGXMLScanner::scanStartTagNS / SGXMLScanner::scanStartTag: "while (elemDepth >= fElemStateSize) resizeElemState();"
+    (resizeElemState doubles fElemStateSize) before fElemState[elemDepth] is written; [elemstate_once] is the single
+    "if" the code had before the repair (finding F30) *)
+Fixpoint elemstate_ensure (fuel : nat) (depth size : N) : N :=
+  match fuel with
+  | O => size
+  | S f => if size <=? depth then elemstate_ensure f depth (size * 2) else size
+  end.
+Definition elemstate_once (depth size : N) : N := if size <=? depth then size * 2 else size.
+
 Fixpoint iter_grow (f : N -> N) (n : nat) (x : N) : N := match n with O => x | S k => f (iter_grow f k x) end.
